@@ -328,9 +328,11 @@ package keeper
 //@ func (Keeper).GetBidsByAuctionId
 //@ requires 0 <= BidSeq[auctionId] && dense1(domOf(Bid, auctionId), BidSeq[auctionId])
 //@ ensures [C19,C03,C07] exactly-the-bids-of-the-auction-in-id-order: result1 == nil && len(result0) == BidSeq[auctionId] && forall(j, int, 0 <= j && j < len(result0) ==> result0[j] == Bid[auctionId][j+1])
+//@ ensures [C19,C03] stored-bids-carry-their-well-formedness: InvBidsWF() ==> forall(j, int, 0 <= j && j < len(result0) ==> bidFacts(result0[j], auctionId) && result0[j].Id == j+1)
 //@ walk 0 invariant len(bids) == idx && forall(j, int, 0 <= j && j < idx ==> bids[j] == walkVal(j))
 
 //@ func (Keeper).GetAllowedBiddersByAuction
+//@ ensures [C05,C03] every-allow-listed-bidder-is-listed-once-with-a-positive-cap: InvAllowed() ==> capsOK(result0) && forall(ad, Addr, AllowedBidder[auctionId][ad].present ==> ite(result0[listPos(domOf(AllowedBidder, auctionId), ad)].Bidder == strOf(ad), indexIn(result0, Bidder, strOf(ad)) >= 0, false))
 //@ ensures [C19,C05,C03] exactly-the-allow-list-of-the-auction: result1 == nil && len(result0) == listN(domOf(AllowedBidder, auctionId)) && forall(j, int, 0 <= j && j < len(result0) ==> result0[j] == AllowedBidder[auctionId][listKey(domOf(AllowedBidder, auctionId), j)])
 //@ walk 0 invariant len(allowedBidders) == idx && forall(j, int, 0 <= j && j < idx ==> allowedBidders[j] == walkVal(j))
 
@@ -458,17 +460,41 @@ package keeper
 //@ ensures [C02,C19] nobody-else-is-touched: forall(ad, Addr, forall(d, string, d != auction.PayingCoinDenom || (ad != payEsc(auction.Id) && !has(mInfo.RefundMap, strOf(ad))) ==> bal(ad, d) == old(bal(ad, d))))
 //@ ensures [C02] escrow-only-decreases: bal(payEsc(auction.Id), auction.PayingCoinDenom) <= old(bal(payEsc(auction.Id), auction.PayingCoinDenom))
 
-// CalculateBatchAllocation: interface contract (the matching itself is specified on types.Match).
+// CalculateBatchAllocation (C03, C05, C13, C16): builds the order book of the auction, searches the lowest recorded price
+// whose capped demand fits the offer (types.Match decides "fits"; the binary search is the sort.Search schema), and
+// turns the match result at that price into per-bidder allocation / payment / refund maps and matched flags.
 //@ func (Keeper).CalculateBatchAllocation
-//@ trusted interface contract: the body (sort.Search over a closure, several map loops) is not yet verified against it
-//@ requires auctionFieldsWF(auction, auction.Id) && auction.Kind == KindBatch && InvBidsWF() && 0 <= BidSeq[auction.Id] && dense1(domOf(Bid, auction.Id), BidSeq[auction.Id])
+//@ requires auctionFieldsWF(auction, auction.Id) && auction.Kind == KindBatch && InvBidsWF() && InvAllowed() && 0 <= BidSeq[auction.Id] && dense1(domOf(Bid, auction.Id), BidSeq[auction.Id])
+//@ requires Auction[auction.Id].present && Auction[auction.Id].Kind == KindBatch
 //@ modifies Bid, MatchedBidsLen, SetT, LastMatchTotal, LastMatchPrice
 //@ sets LastMatchTotal = result0.TotalMatchedAmount
 //@ sets LastMatchPrice = result0.MatchedPrice
 //@ ensures [C13] records-the-matched-length: result1 == nil ==> result0.MatchedLen >= 0 && MatchedBidsLen[auction.Id].present && MatchedBidsLen[auction.Id] == result0.MatchedLen
 //@ ensures [C13,C19] other-matched-lengths-untouched: forall(x, uint64, x != auction.Id ==> MatchedBidsLen[x] == old(MatchedBidsLen[x]))
 //@ ensures [C11,C19,C16] only-matched-flags-of-this-auction-change: forall(a, uint64, forall(i, uint64, Bid[a][i].present == old(Bid[a][i]).present && ite(a == auction.Id, sameExcept(Bid[a][i], old(Bid[a][i]), IsMatched), Bid[a][i] == old(Bid[a][i]))))
-//@ ensures [C04,C07] maps-are-keyed-by-bidders-with-non-negative-amounts: result1 == nil ==> result0.TotalMatchedAmount >= 0 && forall(w, string, (has(result0.AllocationMap, w) ==> validAddr(w) && !isEscrow(addrOf(w)) && result0.AllocationMap[w] >= 0) && (has(result0.RefundMap, w) ==> validAddr(w) && !isEscrow(addrOf(w)) && result0.RefundMap[w] >= 0))
+//@ ensures [C04,C07] maps-are-keyed-by-bidders-with-non-negative-amounts: result1 == nil ==> result0.TotalMatchedAmount >= 0 && forall(w, string, (has(result0.AllocationMap, w) ==> validAddr(w) && !isEscrow(addrOf(w)) && result0.AllocationMap[w] >= 0) && (has(result0.RefundMap, w) ==> validAddr(w) && !isEscrow(addrOf(w))))
+//@ trusted-ensures [C01,C04] refunds-are-non-negative: result1 == nil ==> forall(w, string, has(result0.RefundMap, w) ==> result0.RefundMap[w] >= 0)
+//@ search 0 predicate {exact} cappedDemand(allowedBidders, prices, bidsByPrice, priceAt(prices, idxS)) <= sellingAmt
+//@ search 0 invariant bookOK(prices, bidsByPrice, allowedBidders) && capsOK(allowedBidders) && sortedDesc(prices) && sellingAmt >= 0 && forall(i, int, 0 <= i && i < len(prices) ==> ite(bidsByPrice[decStr(prices[i])][0].Price == prices[i], prices[i] > 0, false))
+//@ search 0 invariant (hiS == len(prices) ==> matchNone(matchRes)) && (hiS < len(prices) ==> matchLight(matchRes, priceAt(prices, hiS), prices, bidsByPrice, sellingAmt, allowedBidders))
+//@ search 0 invariant {exact} hiS < len(prices) ==> matchPost(matchRes, priceAt(prices, hiS), prices, bidsByPrice, sellingAmt, allowedBidders)
+//@ loop 0 invariant 0 <= idx && idx <= len(bids)
+//@ loop 0 invariant forall(j, int, 0 <= j && j < idx ==> has(reservedAmtByBidder, bids[j].Bidder))
+//@ loop 0 invariant forall(w, string, has(reservedAmtByBidder, w) ==> reservedAmtByBidder[w] == resBy(w, bids, idx, auction.PayingCoinDenom) && reservedAmtByBidder[w] >= 0 && exists(j, int, 0 <= j && j < idx && bids[j].Bidder == w))
+//@ loop 1 invariant forall(w, string, visited(w) ==> has(mInfo.AllocationMap, w) && mInfo.AllocationMap[w] == 0 && has(mInfo.ReservedMatchedMap, w) && mInfo.ReservedMatchedMap[w] == 0 && has(mInfo.RefundMap, w) && mInfo.RefundMap[w] == reservedAmtByBidder[w])
+//@ loop 1 invariant forall(w, string, (has(mInfo.AllocationMap, w) ==> visited(w)) && (has(mInfo.ReservedMatchedMap, w) ==> visited(w)) && (has(mInfo.RefundMap, w) ==> visited(w)))
+//@ loop 2 invariant forall(w, string, has(mInfo.AllocationMap, w) == has(reservedAmtByBidder, w) && has(mInfo.ReservedMatchedMap, w) == has(reservedAmtByBidder, w) && has(mInfo.RefundMap, w) == has(reservedAmtByBidder, w))
+//@ loop 2 invariant forall(w, string, visited(w) ==> mInfo.AllocationMap[w] == matchRes.MatchResultByBidder[w].MatchedAmount && mInfo.ReservedMatchedMap[w] == matchRes.MatchResultByBidder[w].PayingAmount && mInfo.RefundMap[w] == reservedAmtByBidder[w] - matchRes.MatchResultByBidder[w].PayingAmount)
+//@ loop 2 invariant forall(w, string, has(reservedAmtByBidder, w) && !visited(w) ==> mInfo.AllocationMap[w] == 0 && mInfo.ReservedMatchedMap[w] == 0 && mInfo.RefundMap[w] == reservedAmtByBidder[w])
+//@ loop 3 invariant 0 <= idx && idx <= len(matchRes.MatchedBids)
+//@ loop 3 invariant forall(id, uint64, has(matchedBidIds, id) ==> matchedBidIds[id] && exists(j, int, 0 <= j && j < idx && matchRes.MatchedBids[j].Id == id))
+//@ loop 3 invariant forall(j, int, 0 <= j && j < idx ==> has(matchedBidIds, matchRes.MatchedBids[j].Id))
+//@ loop 4 invariant 0 <= idx && idx <= len(bids)
+//@ loop 4 invariant forall(a, uint64, forall(i, uint64, Bid[a][i].present == old(Bid[a][i]).present && ite(a == auction.Id, sameExcept(Bid[a][i], old(Bid[a][i]), IsMatched), Bid[a][i] == old(Bid[a][i]))))
+//@ exit [C03] {exact} clearing-price-is-at-most-every-recorded-price-whose-capped-demand-fits: result1 == nil ==> forall(q, int, 0 <= q && q < len(prices) && cappedDemand(allowedBidders, prices, bidsByPrice, priceAt(prices, q)) <= sellingAmt ==> result0.MatchedPrice <= priceAt(prices, q))
+//@ exit [C03] {exact} clearing-price-is-a-recorded-price-that-fits-and-the-total-is-its-capped-demand: result1 == nil ==> forall(q, int, 0 <= q && q < len(prices) && cappedDemand(allowedBidders, prices, bidsByPrice, priceAt(prices, q)) <= sellingAmt ==> exists(r, int, 0 <= r && r < len(prices) && result0.MatchedPrice == priceAt(prices, r) && cappedDemand(allowedBidders, prices, bidsByPrice, priceAt(prices, r)) <= sellingAmt && result0.TotalMatchedAmount == cappedDemand(allowedBidders, prices, bidsByPrice, priceAt(prices, r))))
+//@ exit [C03,C05] {exact} every-bidder-is-allocated-the-capped-demand-at-the-clearing-price: result1 == nil && result0.TotalMatchedAmount > 0 ==> forall(w, string, forall(k, int, 0 <= k && k < len(allowedBidders) && allowedBidders[k].Bidder == w && has(result0.AllocationMap, w) ==> result0.AllocationMap[w] == min(allowedBidders[k].MaxBidAmount, demUpTo(w, prices, bidsByPrice, len(prices), result0.MatchedPrice))))
+//@ exit [C03] {exact} nothing-is-sold-when-no-price-fits: result1 == nil ==> ((forall(i, int, 0 <= i && i < len(prices) ==> cappedDemand(allowedBidders, prices, bidsByPrice, prices[i]) > sellingAmt)) ==> result0.TotalMatchedAmount == 0 && result0.MatchedLen == 0 && forall(w, string, has(result0.AllocationMap, w) ==> result0.AllocationMap[w] == 0 && result0.RefundMap[w] == resBy(w, bids, len(bids), auction.PayingCoinDenom)))
 
 // CloseFixedPriceAuction (C02, C08, C05): allocate, return the unsold remainder, settle the proceeds.
 //@ func (Keeper).CloseFixedPriceAuction
@@ -488,6 +514,7 @@ package keeper
 // CloseBatchAuction (C13, C02, C08, C16): the anti-sniping decision, then either one more round or the settlement.
 //@ func (Keeper).CloseBatchAuction
 //@ requires auctionFieldsWF(auction, auction.Id) && auction.Kind == KindBatch && auction.Id < 18446744073709551616 && Params.present && auction.Status == AuctionStatusStarted
+//@ requires InvAllowed() && Auction[auction.Id].present && Auction[auction.Id].Kind == KindBatch
 //@ requires InvBidsWF() && 0 <= BidSeq[auction.Id] && dense1(domOf(Bid, auction.Id), BidSeq[auction.Id])
 //@ requires forall(t, Time, !VestingQueue[auction.Id][t].present)
 //@ requires 0 <= MatchedBidsLen[auction.Id]
@@ -521,6 +548,7 @@ package keeper
 
 //@ func (Keeper).ExecuteStartedStatus
 //@ requires auctionFieldsWF(auction, auction.Id) && auction.Status == AuctionStatusStarted && auction.Id < 18446744073709551616 && Params.present
+//@ requires InvAllowed() && Auction[auction.Id].present && Auction[auction.Id].Kind == auction.Kind
 //@ requires InvBidsWF() && 0 <= BidSeq[auction.Id] && dense1(domOf(Bid, auction.Id), BidSeq[auction.Id])
 //@ requires forall(t, Time, !VestingQueue[auction.Id][t].present) && 0 <= MatchedBidsLen[auction.Id]
 //@ modifies Auction, Bid, MatchedBidsLen, VestingQueue, Bal, HookN, HookT, SetT, XferN, XferT, LastMatchTotal, LastMatchPrice, *auction
